@@ -310,8 +310,10 @@ static time_t time_left (int slot, time_t delay) {
  * Throw away a call out. First call to this function is discarded.
  * The time left until execution is returned.
  * -1 is returned if no call out pending.
+ * (The time left is an LPC integer, like the delay given to call_out(): an int
+ * does not hold all of them, and 0xffffffff seconds left would read as -1.)
  */
-int remove_call_out (object_t * ob, char *fun) {
+int64_t remove_call_out (object_t * ob, char *fun) {
   pending_call_t **copp, *cop;
   time_t delay;
   int i;
@@ -331,14 +333,14 @@ int remove_call_out (object_t * ob, char *fun) {
                 cop->next->delta += cop->delta;
               *copp = cop->next;
               free_call (cop);
-              return (int)time_left (i, delay);
+              return (int64_t)time_left (i, delay);
             }
         }
     }
   return -1;
 }
 
-int remove_call_out_by_handle (int handle) {
+int64_t remove_call_out_by_handle (int handle) {
   pending_call_t **copp, *cop;
   time_t delay = 0;
 
@@ -352,13 +354,13 @@ int remove_call_out_by_handle (int handle) {
             cop->next->delta += cop->delta;
           *copp = cop->next;
           free_call (cop);
-          return (int)time_left (handle & (CALLOUT_CYCLE_SIZE - 1), delay);
+          return (int64_t)time_left (handle & (CALLOUT_CYCLE_SIZE - 1), delay);
         }
     }
   return -1;
 }
 
-int find_call_out_by_handle (int handle) {
+int64_t find_call_out_by_handle (int handle) {
   pending_call_t *cop;
   time_t delay = 0;
 
@@ -367,12 +369,12 @@ int find_call_out_by_handle (int handle) {
     {
       delay += cop->delta;
       if (cop->handle == handle)
-        return (int)time_left (handle & (CALLOUT_CYCLE_SIZE - 1), delay);
+        return (int64_t)time_left (handle & (CALLOUT_CYCLE_SIZE - 1), delay);
     }
   return -1;
 }
 
-int find_call_out (object_t * ob, char *fun) {
+int64_t find_call_out (object_t * ob, char *fun) {
   pending_call_t *cop;
   time_t delay;
   int i;
@@ -386,7 +388,7 @@ int find_call_out (object_t * ob, char *fun) {
         {
           delay += cop->delta;
           if (cop->ob == ob && strcmp (cop->function.s, fun) == 0)
-            return (int)time_left (i, delay);
+            return (int64_t)time_left (i, delay);
         }
     }
   return -1;
@@ -551,7 +553,7 @@ void f_call_out (void) {
 
 #ifdef F_FIND_CALL_OUT
 void f_find_call_out (void) {
-  int i;
+  int64_t i;
 #ifdef CALLOUT_HANDLES
   if (sp->type == T_NUMBER)
     {
@@ -572,7 +574,7 @@ void f_find_call_out (void) {
 
 #ifdef F_REMOVE_CALL_OUT
 void f_remove_call_out (void) {
-  int i;
+  int64_t i;
 
   if (st_num_arg)
     {
